@@ -184,10 +184,23 @@ func c17Body(L int, mode int, thorough bool) func(c *explore.Ctx) {
 	data := c17Input(L)
 	return func(c *explore.Ctx) {
 		rd := &c17Reader{data: append([]byte(nil), data...), mode: mode}
+		var hist []string
+		// the reader handed to New need not stand at the start of the input (the caller may have looked
+		// at some bytes before): offsets are offsets into the input all the same
+		var firstOp *c17Op
+		if c.More() {
+			ops := c17Ops(L, 0, false, thorough)
+			k := c.Choose(len(ops)+2, "op")
+			if k >= len(ops) {
+				rd.off = []int64{1, int64(L)}[k-len(ops)]
+				hist = append(hist, fmt.Sprintf("(reader initially at offset %d)", rd.off))
+			} else {
+				firstOp = &ops[k]
+			}
+		}
 		p := parser.New(rd)
 		var model int64 // offset just past the last byte consumed
 		failed := false
-		var hist []string
 		c.Sample(func() any {
 			return map[string]any{"input_len": L, "reader": c17ReaderModes[mode], "ops": hist}
 		})
@@ -195,9 +208,14 @@ func c17Body(L int, mode int, thorough bool) func(c *explore.Ctx) {
 		if got := p.Pos(); got != 0 {
 			c.Fail("C17.pos", "New", "Pos()=%d after New", got)
 		}
-		for c.More() {
-			ops := c17Ops(L, model, failed, thorough)
-			op := ops[c.Choose(len(ops), "op")]
+		for firstOp != nil || c.More() {
+			var op c17Op
+			if firstOp != nil {
+				op, firstOp = *firstOp, nil
+			} else {
+				ops := c17Ops(L, model, failed, thorough)
+				op = ops[c.Choose(len(ops), "op")]
+			}
 			hist = append(hist, op.String())
 			avail := int64(L) - model // may be negative after seeking past the end
 			sig := op.kind
@@ -380,6 +398,7 @@ func init() {
 		if !r.Quick() {
 			maxStates = 60000
 		}
+		r.MinNontrivial = 1000 // a search that collapses to a handful of states is vacuous
 		nparts := len(lens) * len(c17ReaderModes)
 		i := 0
 		for _, L := range lens {
